@@ -26,6 +26,8 @@ func main() {
 		for _, id := range fw.IDs() {
 			fmt.Println(id)
 		}
+	case "gen":
+		os.Exit(c14.GenMain(os.Args[2:]))
 	case "probe":
 		os.Exit(c14.ProbeMain(os.Args[2:]))
 	case "worker":
